@@ -101,6 +101,10 @@ def units(tier, seed):
         for mx in (False, True):
             descs.append(dict(engines=list(eng), gens=2, box=boxes[k3 % 2], obj=("nanhole", "nanhalf")[k3 % 2], maximize=mx, Mh=3, seed=s + k3 % 3, kelites=1 + k3 % 2,
                               sprout={"kind": ("simple", "nbc")[k3 % 2], "L": 2}))
+    # an objective with a non-uniform return type: a Python int (penalty) on part of the box, floats elsewhere
+    for k5, eng in enumerate(shapes_h1() + shapes_h2()[:: (2 if tier == "thorough" else 5)]):
+        descs.append(dict(engines=list(eng), gens=2, box=boxes[k5 % 2], obj="intpen", maximize=bool(k5 % 2), Mh=3, seed=s + k5 % 3, sprout={"kind": ("simple", "nbc")[k5 % 2], "L": 2},
+                          pop=(6, 10)[k5 % 2]))
     us = [{"kind": "run", "descs": c} for c in chunks(descs, 25)]
     rshapes = rep_shapes() if tier == "thorough" else rep_shapes()[14:]
     for k, eng in enumerate(rshapes):
